@@ -29,13 +29,13 @@ ExplainEnc(e) ==
                        ELSE IF e.panic THEN No("C03: the encoder panicked") ELSE Ok)   \* extension values may be refused
         ELSE IF e.bytes # exp THEN No("C03: encoding differs from X.691: expected " \o Str(exp) \o " got " \o Str(e.bytes))
         ELSE IF ~e.dec.done \/ e.dec.err THEN No("C04: the encoding was not accepted by the decoder")
-        ELSE IF e.dec.tree # e.tree THEN No("C04: decoded value differs from the encoded value")
+        ELSE IF PerNorm(e.dec.tree) # PerNorm(e.tree) THEN No("C04: decoded value differs from the encoded value")
         ELSE IF e.dec.reErr \/ e.dec.reBytes # e.bytes THEN No("C04: re-encoding the decoded value does not reproduce the bytes")
         ELSE Ok
 \* spec-encoded canonical bytes through the real decoder
 ExplainDec(e) ==
    FirstBad(<< <<~e.obs.err, "C04: canonical encoding from the reference encoder was rejected">>,
-               <<e.obs.tree = e.tree, "C04: decoded value differs from the value the reference encoder encoded">>,
+               <<PerNorm(e.obs.tree) = PerNorm(e.tree), "C04: decoded value differs from the value the reference encoder encoded">>,
                <<~e.obs.reErr /\ e.obs.reBytes = e.bytes, "C04: re-encoding does not reproduce the reference bytes">> >>)
 Explain(e) == CASE e.ev = "Enc" -> ExplainEnc(e)
                 [] e.ev = "Dec" -> ExplainDec(e)
